@@ -123,16 +123,14 @@ Definition path_ok (ex : bytes -> bool) (m : mapping) : bool :=
   match m_path m with
   | [] => negb (m_deleted m)
   | c :: _ =>
+    (* names start with '/', '[' or a letter (the blanks in front are the kernel's column
+       padding) and the kernel escapes newlines; every other byte is allowed anywhere *)
     negb (is_ws c) && negb (contains 10 (m_path m))
     (* the kernel's " (deleted)" marker is readable as such: no file is literally
        named "<path> (deleted)", and a live file whose own name ends so exists *)
     && (if m_deleted m then negb (ex (shown_path m))
         else negb (suffixb deleted_sfx (m_path m)) || ex (m_path m))
   end.
-(* no blank character (str.isspace) at either end of the name as shown -- the class
-   excluded from C13_maps_ungrouped, see C13_maps_trailing_blank_refuted *)
-Definition edges_ok (m : mapping) : bool := beqb (str_strip (shown_path m)) (shown_path m).
-
 (* everything the kernel guarantees about a mapping *)
 Definition wf_kernel (ex : bytes -> bool) (m : mapping) : bool :=
   forallb tok_ok (hdr_tokens m) && negb (suffixb [58] (m_addr m))
@@ -141,7 +139,6 @@ Definition wf_kernel (ex : bytes -> bool) (m : mapping) : bool :=
   && forallb wf_line (m_lines m)
   && forallb (fun f => Nat.eqb (count_fig f (m_lines m)) 1) row_figs
   && Nat.leb (count_fig FPrivateHugetlb (m_lines m)) 1.
-Definition wf_mapping (ex : bytes -> bool) (m : mapping) : bool := wf_kernel ex m && edges_ok m.
 
 (* ---- demanded answers *)
 Definition kb (m : mapping) (f : fig) : Z := fig_kb f (m_lines m).
